@@ -200,7 +200,7 @@ func TestVerifC03(t *testing.T) {
 				add := map[string]bool{}
 				// degenerate but legal triples (no path separator in any part): empty parts,
 				// ".", "..", parts with spaces and dots
-				odd := [][3]string{{"License", "NoVariant", ""}, {"", "NoCategory", "v.txt"}, {"License", ".", "dot.txt"}, {"License", "..", "x"}, {"Header", "a b", "c d.txt"}, {"License", "", ""}, {"X.Y", "n..m", ".hidden"}, {"License", "100%-free", "v%d.txt"}, {"Lic%s", "%v", "%"}}
+				odd := [][3]string{{"License", "NoVariant", ""}, {"", "NoCategory", "v.txt"}, {"License", ".", "dot.txt"}, {"License", "..", "x"}, {"Header", "a b", "c d.txt"}, {"License", "", ""}, {"X.Y", "n..m", ".hidden"}, {"License", "100%-free", "v%d.txt"}, {"Lic%s", "%v", "%"}, {"Vendor\\Custom", "back\\slash", "v\\1.txt"}}
 				for i := range sd {
 					if i < len(odd) && r.Intn(2) == 0 {
 						sd[i].key = odd[i][0] + "/" + odd[i][1] + "/" + odd[i][2]
@@ -210,6 +210,13 @@ func TestVerifC03(t *testing.T) {
 					seg := strings.SplitN(d.key, "/", 3)
 					c.AddContent(seg[0], seg[1], seg[2], []byte(d.text))
 					add[d.key] = true
+				}
+				// registering a triple a second time replaces its text: the triple set stays the same
+				if len(sd) > 2 {
+					nd := vSynthCorpus(r, nv, 1, maxLen)[0]
+					seg := strings.SplitN(sd[1].key, "/", 3)
+					c.AddContent(seg[0], seg[1], seg[2], []byte(nd.text))
+					sd[1].text, sd[1].words = nd.text, nd.words
 				}
 				vocab := vVocab(c)
 				for _, d := range sd {
